@@ -96,6 +96,8 @@ class World:
         self.lost_at = None
         self.pending_at_loss = None
         self.in_body_at_loss = None
+        self.pending_at_hook = None
+        self.in_body_at_hook = None
         self.errors = []
         world = self
 
@@ -142,7 +144,7 @@ class World:
             if skind == 'rpc':
                 class S(sess.RPCSession):
                     async def connection_lost(self):
-                        world.hook_times.append(world.now)
+                        world._on_hook()
                         await super().connection_lost()
 
                     async def handle_request(self, request):
@@ -155,7 +157,7 @@ class World:
             else:
                 class S(sess.MessageSession):
                     async def connection_lost(self):
-                        world.hook_times.append(world.now)
+                        world._on_hook()
                         await super().connection_lost()
 
                     async def handle_message(self, message):
@@ -189,11 +191,19 @@ class World:
         e = ctx.get('exception')
         self.loop_exceptions.append(type(e).__name__ if e else str(ctx.get('message')))
 
+    def _snapshot(self):
+        return (sorted(k for k, r in self.outs.items() if not r['task'].done()),
+                sorted(h for h, r in self.handlers.items()
+                       if r.get('in_body') and not r['task'].done()))
+
     def _on_lost(self):
         self.lost_at = self.now
-        self.pending_at_loss = sorted(k for k, r in self.outs.items() if not r['task'].done())
-        self.in_body_at_loss = sorted(h for h, r in self.handlers.items()
-                                      if r.get('in_body') and not r['task'].done())
+        self.pending_at_loss, self.in_body_at_loss = self._snapshot()
+
+    def _on_hook(self):
+        self.hook_times.append(self.now)
+        if self.pending_at_hook is None:
+            self.pending_at_hook, self.in_body_at_hook = self._snapshot()
 
     def gate(self, hid):
         g = self.gates.get(hid)
@@ -258,8 +268,8 @@ class World:
                 self.tr.feed(json.dumps({'jsonrpc': '2.0', 'result': ev[1],
                                          'id': rec['wire_id']}).encode() + b'\n')
         elif k == 'F':
-            g = self.gate(ev[1])
-            if not g.done():
+            g = self.gates.get(ev[1])       # only a handler that has started can be released
+            if g is not None and not g.done():
                 g.set_result(None)
         elif k in ('O', 'OB', 'ON'):
             if ev[1] not in self.outs:
@@ -419,6 +429,7 @@ def summary(w, stall):
         'stall': stall, 'handlers': hs, 'outs': outs, 'closers': closers, 'aborters': aborters,
         'hook_times': list(w.hook_times), 'lost_at': w.lost_at,
         'pending_at_loss': w.pending_at_loss, 'in_body_at_loss': w.in_body_at_loss,
+        'pending_at_hook': w.pending_at_hook, 'in_body_at_hook': w.in_body_at_hook,
         'closed_event': w.is_closed(), 'closing': w.tr.is_closing(),
         'lost_delivered': w.tr.lost_delivered,
         'leftover_session_tasks': len([t for t in left if t not in own]),
